@@ -360,6 +360,69 @@ def gen_random_files(seed, n, maxlines, opts=("none",), bad_rate=0.0):
     return files
 
 
+def long_line_files(n):
+    """conventional files with ONE long field (value of an entry, continuation line, comment line) of n bytes: "L" + filler + "R" """
+    from gen import gram
+    files = []
+    for D in ("=", " "):
+        body = "L" + "x" * (n - 2) + "R"
+        sep = D
+        for abs_ in ([gram.line("entry", key="k", sep=sep, val="v"), gram.line("cont", ind=" ", val=body), gram.line("entry", key="z", sep=sep, val="1")],
+                     [gram.line("entry", key="k", sep=sep, val=body), gram.line("cont", ind="\t", val="w"), gram.line("entry", key="z", sep=sep, val="1")],
+                     [gram.line("comment", tcc="#", tct=body), gram.line("entry", key="k", sep=sep, val="v"), gram.line("cont", ind="  ", val=body)]):
+            files.append({"par": {"delim": gram.cds(D), "comment": gram.cds("#"), "python": False, "join": False}, "abs": abs_,
+                          "lines": [gram.cds(gram.render(l)) for l in abs_]})
+    return files
+
+
+def check_long_lines(exe, verdict, pid="C02"):
+    """Length is not part of the grammar: a file with one field of 8190 / 8192 / 9000 / 70000 bytes must be observed exactly like its
+    short twin (field of 5 bytes, validated line by line by Trace_Parser with the random files) with the filler stretched.
+    (TLC on 9000-element sequences takes minutes per file; the expectation for the long file is the TLC-validated observation of
+    the twin under the substitution, which Parser.tla cannot tell apart: it never looks at ordinary characters.)"""
+    twins = long_line_files(5)
+    n_ok = 0
+    for n in (8190, 8192, 9000, 70000):
+        longs = long_line_files(n)
+        cases = []
+        for i, f in enumerate(twins + longs):
+            cases.append((i, read_script(core.ROOT + "/ll%d/f.conf" % (i % 16), file_bytes(f["lines"]), f["par"]["delim"], f["par"]["comment"])))
+        res = core.run_cases(exe, cases, per_case_timeout=60)
+        obs = []
+        for i in range(len(cases)):
+            out = res.get(i)
+            if out is None or out["crash"]:
+                verdict.violation("%s:longline:crash" % pid, {"kind": "longline", "len": n, "crash": (out or {}).get("crash")}, "file with a %d-byte field crashed the library\n%s" % (n, (out or {}).get("crash", "")[:600]))
+                obs.append(None)
+                continue
+            ev = out["ev"]
+            o = obs_of_dump(next(e for e in ev if e["op"] == "readfile"), next(e for e in ev if e["op"] == "dump"), next(e for e in ev if e["op"] == "errloc"))
+            obs.append(proj(o, ("g", "k", "v", "line", "vals")) if o["rc"] == "ECONF_SUCCESS" else o)
+        filler_s, filler_l = [120] * 3, [120] * (n - 2)
+
+        def stretch(x):
+            if isinstance(x, list) and x and all(isinstance(c, int) for c in x):
+                t = bytes(x)
+                return list(t.replace(b"L" + bytes(filler_s) + b"R", b"L" + bytes(filler_l) + b"R"))
+            if isinstance(x, list):
+                return [stretch(y) for y in x]
+            if isinstance(x, dict):
+                return {k: stretch(v) for k, v in x.items()}
+            return x
+        for k in range(len(twins)):
+            a, b = obs[k], obs[len(twins) + k]
+            if a is None or b is None:
+                continue
+            if stretch(a) != b:
+                verdict.violation("%s:longline:%d" % (pid, k % 3), {"kind": "longline", "len": n, "shape": k % 3, "delim": twins[k]["par"]["delim"]},
+                                  "a field of %d bytes is not read like the same field of 5 bytes (shape %s, delimiter %r): lengths of the values %s vs expected %s" % (
+                                      n, ["continuation line", "entry value", "comment + continuation"][k % 3], core.uncodes(twins[k]["par"]["delim"]),
+                                      [len(e["v"]) for e in b.get("ents", [])] if isinstance(b, dict) else b, [len(e["v"]) for e in stretch(a).get("ents", [])]))
+            else:
+                n_ok += 1
+    return twins, n_ok
+
+
 def check_c02(exe, tier, seed, verdict):
     maxl = 3
     sample = 6 if tier == "quick" else 1
@@ -378,11 +441,12 @@ def check_c02(exe, tier, seed, verdict):
     nn += nn2
     total += total_s
     nfiles = 300 if tier == "quick" else 6000
-    files = gen_random_files(seed, nfiles, 14 if tier == "quick" else 40)
-    acc = validate_prefix_traces(exe, files, verdict, "C02")
+    twins, nlong = check_long_lines(exe, verdict, "C02")
+    files = gen_random_files(seed, nfiles, 14 if tier == "quick" else 40) + twins
+    acc = validate_prefix_traces(exe, files, verdict, "C02") + nlong
     cov = {"states": r.distinct, "transitions": r.generated, "traces_validated_against_impl": n + acc,
            "evaluations": n + sum(len(f["lines"]) for f in files), "distinct_nontrivial": nn,
-           "rule": "TLC enumerates all conventional files of <= %d lines over the line pool of MC_Parser.tla x 7 delimiter sets x 3 comment sets (%d files; every %d-th replayed in this tier); non-trivial = >= 2 entries and a quoted value / trailing comment / continuation / blanks around the delimiter / repeated key. Plus %d random conventional files (full printable alphabet) read prefix by prefix and validated line by line by Trace_Parser." % (maxl, total, sample, len(files)),
+           "rule": "TLC enumerates all conventional files of <= %d lines over the line pool of MC_Parser.tla x 7 delimiter sets x 3 comment sets (%d files; every %d-th replayed in this tier); non-trivial = >= 2 entries and a quoted value / trailing comment / continuation / blanks around the delimiter / repeated key. Plus %d random conventional files (full printable alphabet) read prefix by prefix and validated line by line by Trace_Parser (6 of them twins of files with one field - entry value, continuation line, comment line - of 8190 / 8192 / 9000 / 70000 bytes, which must be observed like the twin with the filler stretched)." % (maxl, total, sample, len(files)),
            "samples": samples, "exhaustive": sample == 1,
            "model_universe_files": total, "replayed_files": n, "random_prefix_files_accepted": acc,
            "trusted_base": ["TLC 1.8.0", "gcc ASan/UBSan", "drv.c (public API only)"]}
